@@ -904,4 +904,141 @@ def layoutDoc (d : Str) : Str := fmtDoc 0 d
 
 def layoutItem : Item → Item := mapDocItem layoutDoc
 
+
+/-! ## Public mutators (objects built by a history of calls rather than in one go) -/
+
+def Feats.erase : Feats → Str → Feats
+  | .nil, _ => .nil
+  | .cons k' v fs, k => if k' = k then fs else .cons k' v (fs.erase k)
+
+/-- `del fs[path]` through plain AVMs (`KeyError` for a missing key, `TypeError` below a type term;
+through lists / conjunctions: outside the model) -/
+def delPath : Feats → List Str → Except Err Feats
+  | _, [] => .error .unmodelled
+  | fs, [k] =>
+    match fs.lookup (upper k) with
+    | none => .error .keyError
+    | some _ => .ok (fs.erase (upper k))
+  | fs, k :: k2 :: p =>
+    match fs.lookup (upper k) with
+    | none => .error .keyError
+    | some (.term (.avm d sub)) =>
+      match delPath sub (k2 :: p) with
+      | .ok sub' => .ok (fs.replace (upper k) (.term (.avm d sub')))
+      | .error e => .error e
+    | some (.term (.ident ..)) => .error .typeError
+    | some (.term (.str ..)) => .error .typeError
+    | some (.term (.regex ..)) => .error .typeError
+    | some (.term (.coref ..)) => .error .typeError
+    | some _ => .error .unmodelled
+
+def Items.snoc : Items → Val → Items
+  | .nil, v => .cons v .nil
+  | .cons v' vs, v => .cons v' (vs.snoc v)
+
+/-- `ConsList.append` -/
+def consAppend : Term → Val → Except Err Term
+  | .cons d vs .opn, v => .ok (.cons d (vs.snoc v) .opn)
+  | .cons _ _ _, _ => .error .tdlError
+  | _, _ => .error .unmodelled
+
+/-- `ConsList.terminate` -/
+def consTerminate : Term → PEnd → Except Err Term
+  | .cons d vs .opn, e => mkCons d vs.toList e
+  | .cons _ _ _, _ => .error .tdlError
+  | _, _ => .error .unmodelled
+
+def Terms.append : Terms → Terms → Terms
+  | .nil, g => g
+  | .cons t ts, g => .cons t (ts.append g)
+
+/-- `Conjunction.add` / `&` -/
+def conjAdd (ts : Terms) : Val → Terms
+  | .term t => ts.append (.cons t .nil)
+  | .conj us => ts.append us
+
+def isCoref : Term → Bool
+  | .coref .. => true
+  | _ => false
+
+/-- the reordering of `Conjunction.normalize`: coreferences, then type terms, then AVMs -/
+def normOrder (l : List Term) : List Term :=
+  l.filter isCoref ++ l.filter isTypeTerm ++ l.filter isAvmLike
+
+mutual
+/-- `AVM.normalize` (on lists it walks the FIRST/REST structure; `< >` has no structure: TypeError) -/
+def normTerm : Term → Except Err Term
+  | .avm d fs =>
+    match normFeats fs with
+    | .ok fs' => .ok (.avm d fs')
+    | .error e => .error e
+  | .cons d vs e =>
+    match vs, e with
+    | .nil, .closed => .error .typeError
+    | _, _ =>
+      match normItems vs with
+      | .error e' => .error e'
+      | .ok vs' =>
+        match normEnd e with
+        | .error e' => .error e'
+        | .ok e2 => .ok (.cons d vs' e2)
+  | .diff d vs =>
+    match normItems vs with
+    | .ok vs' => .ok (.diff d vs')
+    | .error e => .error e
+  | t => .ok t
+/-- a value inside an AVM: a Conjunction is normalised and replaced by its term when that is one AVM -/
+def normVal : Val → Except Err Val
+  | .term t =>
+    match normTerm t with
+    | .ok t' => .ok (.term t')
+    | .error e => .error e
+  | .conj ts =>
+    match normTerms ts with
+    | .error e => .error e
+    | .ok l =>
+      match normOrder l with
+      | [t] => if isAvmLike t then .ok (.term t) else .ok (.conj (Terms.ofList [t]))
+      | l' => .ok (.conj (Terms.ofList l'))
+def normTerms : Terms → Except Err (List Term)
+  | .nil => .ok []
+  | .cons t ts =>
+    match normTerm t with
+    | .error e => .error e
+    | .ok t' =>
+      match normTerms ts with
+      | .error e => .error e
+      | .ok l => .ok (t' :: l)
+def normFeats : Feats → Except Err Feats
+  | .nil => .ok .nil
+  | .cons k v fs =>
+    match normVal v with
+    | .error e => .error e
+    | .ok v' =>
+      match normFeats fs with
+      | .error e => .error e
+      | .ok fs' => .ok (.cons k v' fs')
+def normItems : Items → Except Err Items
+  | .nil => .ok .nil
+  | .cons v vs =>
+    match normVal v with
+    | .error e => .error e
+    | .ok v' =>
+      match normItems vs with
+      | .error e => .error e
+      | .ok vs' => .ok (.cons v' vs')
+def normEnd : End → Except Err End
+  | .dotted v =>
+    match normVal v with
+    | .ok v' => .ok (.dotted v')
+    | .error e => .error e
+  | e => .ok e
+end
+
+/-- `Conjunction.normalize` on a top-level conjunction -/
+def normTop (ts : Terms) : Except Err Terms :=
+  match normTerms ts with
+  | .ok l => .ok (Terms.ofList (normOrder l))
+  | .error e => .error e
+
 end Verif.C15
